@@ -797,7 +797,7 @@ def c16(ctx):
     write_ndjson(f, evs)
     ctx.bads += tlc_trace(ctx, "Trace_Units", f, shards=14, per_shard_min=20)
     for e in evs:
-        if e["op"] in ("units.conv", "units.muldiv"):
+        if e["op"] in ("units.conv", "units.muldiv", "units.addsub"):
             ctx.evaluations += len(e["results"]) if e["op"] == "units.conv" else e.get("pairs", 0)
     note_events(ctx, f, key=lambda e: [e.get("op"), e.get("a"), e.get("x"), e.get("b")])
     return finish(ctx,
@@ -805,6 +805,7 @@ def c16(ctx):
                   "it succeeds the result is within 1e-12 (relative to the magnitudes involved) of ((x*scale_a + off_a) - off_b)/scale_b "
                   "evaluated exactly on the decimal numerals of units.txt, and converting back returns x (magnitudes: %s); unit * and / over "
                   "all ordered pairs: a yielded unit must have dimension = sum / difference and scale = product / quotient within 1e-3; "
+                  "Number + and - over all ordered pairs: accepted exactly for equal units, the sum carries that unit; "
                   "Number + - * / over {none, m, s, kWh, h, degF, kW} x 6 magnitudes: common unit kept, different units fail for + -, "
                   "value = the IEEE result. Each conv / muldiv event covers one source unit against all 443 targets; evaluations counts "
                   "pairs" % ("one of {0, 1, -40, 1000.5} per source unit" if q else "0, 1, -40, 1000.5"),
